@@ -576,3 +576,43 @@ def run(ctx):
 
 # evidence: how the model is tied to the source on every run (as built, supersedes the value above)
 TIE = 'translator (fns/peaks_and_crossings.py -> Gen/PeaksFns; Props/C11Gen, all series and arguments) + correspondence (exhaustive over small alphabets, exact)'
+
+
+# ---- round 9 (hx_r9b): reduced-precision floating records (float16 / float32) whose neighbouring differences underflow when multiplied -----
+def extras_lowprec(ctx):
+    """the property quantifies over every series: a float16 / float32 ndarray holds real numbers like any other container, and the result
+    must be the one of the float64 image of the same numbers (the pinned library converts to float64 first)."""
+    from eqsig.fns import peaks_and_crossings as pc
+    rng = ctx.rng
+    calls = [('all', lambda x: pc.get_peak_array_indices(x)), ('max', lambda x: pc.get_peak_array_indices(x, ptype='max')),
+             ('min', lambda x: pc.get_peak_array_indices(x, ptype='min')), ('n_cyc', lambda x: pc.get_n_cyc_array(x)),
+             ('n_cyc/peak', lambda x: pc.get_n_cyc_array(x, start='peak'))]
+    # opt='switched' is NOT demanded here: get_switched_peak_array_indices of the pinned tree evaluates `adj_val * last <= 0` on the values in their
+    # own dtype, the product of two tiny peaks underflows to 0 and a switch is reported between peaks of the same sign (see NOTES hx_r9b, suspected defect)
+    for it in range(6 if ctx.tier == 'quick' else 60):
+        n = rng.choice([5, 9, 16, 33])
+        v = gen.int_record(rng, n, -3, 3) if it % 2 == 0 else np.asarray(gen.plateau_record(rng, n), dtype=float)
+        if len(set(v.tolist())) < 2:
+            v[-1] = v[0] + 1
+        for lab, lo, f64 in gen.low_precision_tiny(v):
+            ctx.hist('lowprec/' + lab)
+            snap = lo.copy()
+            spec = np_spec_peaks(f64)
+            for nm, call in calls:
+                ref, g = call(f64), call_impl(call, lo)
+                ctx.oracle('C11 the indices / cycle counter of a float16 / float32 ndarray are those of the same numbers held in float64 (%s)' % nm,
+                           g[0] == 'ok' and _same(g[1], ref), {'values': lo, 'dtype': str(lo.dtype), 'container': lab},
+                           detail={'got': g[1], 'float64 ndarray': ref})
+                if nm == 'all':
+                    ctx.oracle('C11.a every turning point is reported and nothing else (float16 / float32 ndarray)', g[0] == 'ok' and _same(g[1], spec),
+                               {'values': lo, 'dtype': str(lo.dtype), 'container': lab}, detail={'got': g[1], 'turning points': spec})
+            ctx.oracle('C11 input array unchanged (values and dtype)', lo.dtype == snap.dtype and np.array_equal(lo, snap), {'values': snap, 'container': lab})
+
+
+_run_main_lp = run
+
+
+def run(ctx):
+    _run_main_lp(ctx)
+    extras_lowprec(ctx)
+    ctx.flush()
